@@ -75,6 +75,11 @@ type caseT struct {
 	P0s   [][]rat `json:"p0s"`
 	Steps []int   `json:"steps"`
 	Rad float64 `json:"rad"` // bowl: radius of the domain
+	// lattice (w sum (x_i - m_i)^2): the routine / variant / initial step the case is constructed for
+	Wt      float64 `json:"w"`
+	For     string  `json:"for"`
+	Variant string  `json:"variant"`
+	Step    rat     `json:"step"`
 	// options
 	Combos     []combo  `json:"combos"`
 	StartTypes []string `json:"starttypes"`
@@ -169,6 +174,15 @@ func (c *caseT) objective() scalarF {
 					t = add(t, mul(cst(a[j]), z[j]))
 				}
 				r = add(r, add(softplus(t), softplus(neg(t))))
+			}
+			return add(r, cst(0)), nil
+		}
+	case "lattice":
+		return func(x ConstVector) (MagicScalar, error) {
+			var r ConstScalar = cst(0)
+			for i := 0; i < c.N; i++ {
+				z := sub(x.ConstAt(i), cst(c.M[i].f()))
+				r = add(r, mul(cst(c.Wt), mul(z, z)))
 			}
 			return add(r, cst(0)), nil
 		}
